@@ -1,36 +1,36 @@
 import json, os, shutil, glob
-W='q'
+W='r'
 rows = {
- 'C01': ("events whose header server_id equals the replica's own id skipped (third placement of this filter, after the checksum strip)",
-         "a committed transaction stamped with the replica's own server id",
-         "C01: count, order"),
- 'C02': ("DDL / DML query events whose error_code is 1053 / 1184 / 1317 / 1927 ('statement was killed') skipped",
-         "a statement logged with one of those four error codes",
-         "C02: grouping (error codes of query events are now drawn half of the time from the codes a master logs for killed / failed statements)"),
- 'C03': ("statement classified by the word behind a leading '/*' (meant for '/*!' version comments only)",
-         "a comment-led statement inside a transaction whose comment starts with commit / rollback",
-         "C03: end-label, resume-suffix, crash-restart-exactly-once - **missed at first** (comment-led statements were excluded because classifying the statement behind the comment is a legitimate choice; they are now generated inside transactions as *optional* changes: present or absent, never a commit point)"),
- 'C04': ("file name taken from the dump's opening artificial ROTATE, checksum-stripped by the first FORMAT_DESCRIPTION's algorithm",
-         "binlog_checksum changed on the master after the start file was written: the opening ROTATE follows the connection's setting, the file's FORMAT_DESCRIPTION the old one",
-         "C04: reordered, resume-coordinate - **missed at first** (the simulated dump thread built the opening ROTATE with the start file's checksum setting; it now also uses the newest file's setting or the opposite one)"),
- 'C05': ("after a failed checksum SET the connection is closed only if the error is a MySQL error packet",
-         "the SET answered by a complete reply with a wrong sequence id or a malformed body",
-         "C05: goroutine-leak:watcher, socket-not-closed - **missed at first** (the set-error fault only sent an ERR packet; it now also sends an OK with a wrong sequence id or a malformed result-set header)"),
- 'C06': ("per-row column-count guard compares against the table map instead of the mapper's table",
-         "a table id re-announced with fewer columns (id reuse after a master restart), then rows for it",
-         "C06: stream-nil-on-failure - **missed at first** (the column-count-change unit was C15-only; it is now part of the C06 family, judged when its last rows event has been delivered)"),
- 'C07': ("Error() increments the configured server id when the master's error says a replica with the same id has connected",
-         "ERR 1236 with the 'slave with the same server_uuid' text, Error() called, another attempt",
-         "C07: server-id - **missed at first** (the real texts of the master's 1236 errors are now among the ERR messages, errno 1236 is drawn more often)"),
- 'C08': ("deferred clean-up nils the pending-events slice; on a handler error that slice is the refused Transaction's Events",
-         "a handler that keeps the transaction it refuses",
-         "C08: mutated-after-delivery - **missed at first** (a fifth of the C08 cases now start with a call in which the handler refuses - and keeps - one transaction)"),
- 'C15': ("'last looked-up table' shortcut in front of the table-id lookup compares only the low 32 bits",
-         "rows events back to back for two 6-byte ids that agree in their low 32 bits",
-         "C15: attribution, wrong-table, panic"),
- 'C17': ("before the first FORMAT_DESCRIPTION the gate only requires 13 header bytes and a consistent length",
-         "a 13..18-byte packet with a consistent length field and type ROTATE / FORMAT_DESCRIPTION at packet index 0 or 1",
-         "C17: accepted-malformed, panic - **missed at first** (a tenth of the malformed packets are now 13..18 bytes long with a correct length field and an early-event type)"),
+ 'C01': ("per-dump table cache moved into the Streamer (kept across Stream calls)",
+         "a second Stream call in which a table id seen before belongs to another table",
+         "neutralised by fix 5b1215f: on the fixed tree a re-announcement under another name is looked up again and the agent's demo passes with the change; on the pre-fix tree the demo fails. (C15 `mapper-call` still notices the missing lookups of the second call.) The seed led to the discovery of the defect fixed by 5b1215f - see 14.1"),
+ 'C02': ("events whose header server_id equals the replica's id skipped (fourth placement of this filter)",
+         "a unit stamped with the replica's own server id",
+         "C02: grouping, rollback-delivered"),
+ 'C03': ("memory bound: an open transaction of 4096 events is committed at the current event and re-opened",
+         "one transaction with at least 4096 changes",
+         "C03: resume-suffix, crash-restart-exactly-once - **missed at first** (one history in 400 now holds a bulk transaction of 1030 or 4100 single-row statements on a narrow table of its own)"),
+ 'C04': ("memory bound: after 1024 collected events the partial transaction is handed to the handler and the position advanced",
+         "a transaction of at least 1024 changes, an attempt that ends inside it, a retry",
+         "C04: reordered - **missed at first** (same bulk transactions)"),
+ 'C05': ("'nothing received for 10 minutes' timer re-armed with Stop / drain / Reset: after it has fired once the drain blocks for ever",
+         "a master that is silent for more than 10 minutes and then sends one more event",
+         "C05: stream-hang - **missed at first** (an eighth of the attempts now contain a quiet period of 40 s, 11 min, 1 h or 25 h on the fake clock in the middle of the dump)"),
+ 'C06': ("before-image decode error of an UPDATE row overwritten by the after-image call before it is checked",
+         "an UPDATE whose before image holds a value the decoder rejects while the after image is fine",
+         "C06: stream-nil-on-failure - **missed at first** (the undecodable JSON value was only ever inserted; it now also sits in a DELETE image, in the before image and in the after image of an UPDATE)"),
+ 'C07': ("Stream returns before sending the dump request when the caller's context ended during the checksum SET round trip",
+         "cancellation while the master holds back its OK for the SET",
+         "judged NOT a violation: a Stream call whose caller has already cancelled need not ask for a dump (a cancel that lands during the handshake has the same effect on the unchanged tree). No check alarms, which is the right answer; kept as a benign case"),
+ 'C08': ("packet copied only if the driver's slice has spare capacity (cap == len exactly when the packet ends at the end of the driver's read buffer)",
+         "a rows packet that ends exactly at the end of the driver's buffer, a retained value, a later read",
+         "C08: later-delivery-corrupted, mutated-after-delivery, panic"),
+ 'C15': ("length prefix of long CHAR columns chosen by a bit test that is only right for 768..1023 bytes",
+         "a CHAR column of 256..767 bytes with a non-NULL value",
+         "C15: attribution, panic"),
+ 'C17': ("a truncated packet is swallowed (nil) when the reader has already posted an error",
+         "a truncated packet that is the last one before an EOF / ERR / connection loss, with the reader ahead of the parser",
+         "C17: accepted-malformed - **missed at first**, two changes were needed: the master can now end the stream (EOF packet, ERR packet, close) right behind the malformed packet, and every second worker process runs with GOMAXPROCS=1, where a goroutine that hands an event over an unbuffered channel runs on until it blocks - the reader gets ahead of the parser inside one simulation step"),
 }
 for p,(chg,needs,caught) in rows.items():
     src=f'/tmp/wt-{p}-{W}/_seeded'
